@@ -291,16 +291,28 @@ tuple fields it is sampled on every run (correspondence run + the generator's ex
 def C07_print_parse_full : Prop := ∀ e, Canon e = true → parse (print e) = .ok e []
 
 /-- **C07_print_parse (partial, character level).** For every expression built from variables and fields named by plain
-identifiers and the prefix operators `*`, `&`, `~` — any nesting, parenthesised where a prefix operator sits under a
-field — the parser model maps the canonical text back to the expression, consuming all of it. -/
+identifiers, slices `[l..r]` (each bound absent or below 2^64) and the prefix operators `*`, `&`, `~` — any nesting,
+parenthesised where a prefix operator sits under a postfix one — the parser model maps the canonical text back to the
+expression, consuming all of it.  (Inside: the index alternative `[literal]` fails on a slice text and the slice alternative
+takes over; a parenthesised expression is never taken for a pointer cast; decimal printing and `parse::<usize>` are inverse.) -/
 theorem C07_print_parse_partial (e : Dqe) (h : frag e = true) : parse (print e) = .ok e [] := print_parse_frag e h
 
 /-- the fragment is part of the canonical class on which the full statement speaks (so the partial theorem is an instance of it) -/
-example : frag (.field (.deref (.address (.field (.var ['a', '1']) ['_', 'b']))) ['c']) = true := by decide
+example : frag (.field (.deref (.address (.slice (.field (.var ['a', '1']) ['_', 'b']) (some 1) none))) ['c']) = true := by decide
 
 example : parse ['(', '*', '&', 'a', '.', 'b', ')', '.', 'c'] = .ok (.field (.deref (.address (.field (.var ['a']) ['b']))) ['c']) [] := by
   have := C07_print_parse_partial (.field (.deref (.address (.field (.var ['a']) ['b']))) ['c']) (by decide)
   simpa [print, printPre, printPost] using this
+
+/-- `a[l..r]` and `(*a)[..r]`, for all identifiers and bounds -/
+theorem C07_parse_slice (a : Str) (l r : Nat) (ha : isIdentB a = true) (hl : l < 2 ^ 64) (hr : r < 2 ^ 64) :
+    parse (a ++ '[' :: natText l ++ '.' :: '.' :: natText r ++ [']']) = .ok (.slice (.var a) (some l) (some r)) [] ∧
+    parse ('(' :: '*' :: a ++ ')' :: '[' :: '.' :: '.' :: natText r ++ [']']) = .ok (.slice (.deref (.var a)) none (some r)) [] := by
+  constructor
+  · have := C07_print_parse_partial (.slice (.var a) (some l) (some r)) (by simp [frag, okPost, ha, hl, hr])
+    simpa [print, printPre, printPost, printBound] using this
+  · have := C07_print_parse_partial (.slice (.deref (.var a)) none (some r)) (by simp [frag, okPost, ha, hr])
+    simpa [print, printPre, printPost, printBound] using this
 
 /-- **C07_precedence (instances for all identifiers).** `*a.b` is `Deref(Field(a, b))`; `(*a).b` is `Field(Deref a, b)`. -/
 theorem C07_precedence_deref_field (a b : Str) (ha : isIdentB a = true) (hb : isIdentB b = true) :
